@@ -12,6 +12,7 @@ import (
 	"hash/crc32"
 	"io"
 	"math/rand"
+	"sort"
 
 	"github.com/golang/snappy"
 )
@@ -92,8 +93,13 @@ func (c *Container) Bytes(metaSplit bool) []byte {
 	if c.Codec != "" {
 		entries = append(entries, kv{"avro.codec", []byte(c.Codec)})
 	}
-	for k, v := range c.ExtraMeta {
-		entries = append(entries, kv{k, v})
+	extra := make([]string, 0, len(c.ExtraMeta))
+	for k := range c.ExtraMeta {
+		extra = append(extra, k)
+	}
+	sort.Strings(extra)
+	for _, k := range extra {
+		entries = append(entries, kv{k, c.ExtraMeta[k]})
 	}
 	if metaSplit && len(entries) > 1 {
 		out = append(out, specVarint(1)...)
